@@ -1109,6 +1109,41 @@ func c07Wrappers(c *core.Ctx) {
 						}
 					}
 					c.Check(okR && len(vals) > 0, "R6", "wrapper=kv.MultiClient:result", fn.Pos(), fmt.Sprintf("CAS reports exactly what the primary store's CAS reported (a mirror failure must not turn a committed update into a failed call): returned %v", vals), 1)
+					// what is mirrored is what the LAST attempt asked to store: the variable handed to writeToSecondary is
+					// assigned f's first result on every path of the closure, unconditionally (a value remembered from an
+					// earlier, losing attempt would be written to the secondary store although no CAS committed it)
+					if len(ws) == 1 && len(ws[0].Expr.Args) >= 1 && len(fcalls) == 1 {
+						FC := lf.Canon(fcalls[0].Expr)
+						varg := ws[0].Expr.Args[len(ws[0].Expr.Args)-1]
+						obj := fn.ObjOf(varg)
+						okV, nAsg := obj != nil, 0
+						detailV := ""
+						if obj != nil {
+							ast.Inspect(lit.Body, func(nd ast.Node) bool {
+								as, ok := nd.(*ast.AssignStmt)
+								if !ok {
+									return true
+								}
+								for i, l := range as.Lhs {
+									if lf.ObjOf(l) != obj {
+										continue
+									}
+									nAsg++
+									val := ""
+									if len(as.Rhs) == len(as.Lhs) {
+										val = lf.Canon(as.Rhs[i])
+									}
+									ex := lg.Exec(lg.EntryLoc(), []an.Loc{lg.Locate(as)}, func(ast.Expr, an.Store) an.Tri { return an.U }, an.ExecOpts{})
+									if val != FC+"#0" || !ex.Must[0] {
+										okV = false
+										detailV += fmt.Sprintf(" [%s = %s, on every path of the attempt: %v]", obj.Name(), val, ex.Must[0])
+									}
+								}
+								return true
+							})
+						}
+						c.Check(okV && nAsg == 1, "R6", "wrapper=kv.MultiClient:mirrored-value", fn.Pos(), fmt.Sprintf("the value mirrored to the secondary store is the output of the last attempt: the closure assigns it f's first result once, on every path (assignments: %d)%s", nAsg, detailV), 1)
+					}
 				}
 			} else {
 				fc := call.In.Canon(farg)
